@@ -28,7 +28,7 @@ Record srv := {
 }.
 
 Inductive label :=
-| LStart                     (* await server.serve_forever() *)
+| LStart                     (* await server.serve_forever() - also again, after a completed stop *)
 | LConnect                   (* a client connects and performs the handshake *)
 | LConnectBad                (* a client connects and sends garbage instead of the handshake, or
                                 hangs up at once: the session fails, its connection is closed *)
@@ -66,7 +66,10 @@ Definition set_conns (s : srv) (cs : list conn) : srv :=
 Definition step (s : srv) (l : label) : srv :=
   match l with
   | LStart =>
-      if v_started s then s
+      (* a second serve_forever() while the first serving task is still alive is not modelled
+         (no-op here, never issued by the harness); once that task has completed, the same server
+         object can be started again: a fresh asyncio server on the same address *)
+      if v_started s && negb (v_done s) then s
       else {| v_kind := v_kind s; v_started := true; v_listening := true; v_stopreq := false;
               v_done := false;
               v_sockfile := match v_kind s with Unix => true | TCP => false end;
